@@ -47,7 +47,7 @@ add(L,"llmnr","DecodeDomainName","DecodeDomainName(data, vParam(\"off\"))",["0..
 add(L,"llmnr","DecodeQuestion","DecodeQuestion(data, 0)",["0..9"],["0..14"],lossy_fmt=True)
 add(L,"llmnr","DecodeResourceRecord","DecodeResourceRecord(data, 0)",["0..14"],["0..20"],lossy_fmt=True)
 N="network/netbios/nbtns"
-add(N,"nbtns","NBTNSPacket","p := &NBTNSPacket{}\n\tp.Unmarshal(data)",["0..16","50"],["0..60"],lossy_fmt=True)
+add(N,"nbtns","NBTNSPacket","p := &NBTNSPacket{}\n\tp.Unmarshal(data)",["0..16"],["0..20"],lossy_fmt=True)
 addS(N,"nbtns","FirstLevelDecode","FirstLevelDecode(data)",["0..6","32","33","35"],["0..40"],lossy_fmt=True)
 NT="network/smb/smb_v10/spnego/ntlm"
 add(NT,"ntlm","ParseChallengeMessage","ParseChallengeMessage(data)",["0..12","55","56","58","64"],["0..72"],lossy_fmt=True,conc_sample=3,
